@@ -209,6 +209,26 @@ func matchOpts(m string) Val {
 	return Dict(KV{"match", Str(m)})
 }
 
+// kinded: the string-valued options as the decoders of remote clients may
+// hand them over: a Go string, a wamp.URI or (MessagePack bin) a []byte
+func (g *gen) kinded(o Val) Val {
+	if o.T != 'd' || !g.chance(0.2) {
+		return o
+	}
+	d := Val{T: 'd', D: append([]KV{}, o.D...)}
+	for i := range d.D {
+		if v := d.D[i].V; v.T == 's' && v.K == 's' {
+			if g.chance(0.5) {
+				d.D[i].V = Bytes(v.S)
+			} else {
+				d.D[i].V = URI(v.S)
+			}
+			g.tag("option-string-kind")
+		}
+	}
+	return d
+}
+
 func (g *gen) opSubscribe() {
 	s, ok := g.anySess()
 	if !ok {
@@ -222,7 +242,7 @@ func (g *gen) opSubscribe() {
 	}
 	req := g.nextReq(s)
 	g.subs = append(g.subs, subRec{s, req})
-	g.msg(s, &Msg{Kind: "sub", Req: req, Opts: matchOpts(m), URI: uri})
+	g.msg(s, &Msg{Kind: "sub", Req: req, Opts: g.kinded(matchOpts(m)), URI: uri})
 }
 
 func (g *gen) opUnsubscribe() {
@@ -433,6 +453,7 @@ func (g *gen) opRegister() {
 	if g.chance(0.7) {
 		o.D = append(o.D, KV{"invoke", Str(g.pick(policies))})
 	}
+	o = g.kinded(o)
 	if g.chance(0.2) {
 		o.D = append(o.D, KV{"disclose_caller", Bool(true)})
 	}
@@ -557,7 +578,7 @@ func (g *gen) opCancel() {
 	default:
 		o.D = append(o.D, KV{"mode", g.junk()})
 	}
-	g.msg(s, &Msg{Kind: "cancel", Req: c.req, Opts: o})
+	g.msg(s, &Msg{Kind: "cancel", Req: c.req, Opts: g.kinded(o)})
 }
 
 func (g *gen) calleeSess() (int, bool) {
@@ -859,6 +880,52 @@ func (g *gen) tplShared() {
 	g.tag("shared-3-callees-churn")
 }
 
+// tplSharedOptions: the members of one shared registration ask for different
+// things (forward_timeout, disclose_caller) and announce different features;
+// calls with a timeout and a disclosure request go round all of them, then
+// time passes beyond the timeout: what one member asked for or can do must
+// not leak to the calls routed to another.
+func (g *gen) tplSharedOptions() {
+	if len(g.alive) < 3 {
+		return
+	}
+	proc := g.pick([]string{"sh.c", "sh.d"})
+	policy := g.pick([]string{"roundrobin", "roundrobin", "first", "last"})
+	members := append([]int(nil), g.alive[1:]...)
+	g.r.Shuffle(len(members), func(i, j int) { members[i], members[j] = members[j], members[i] })
+	if len(members) > 3 {
+		members = members[:3]
+	}
+	first := g.r.IntN(2) == 0
+	for i, s := range members {
+		req := g.nextReq(s)
+		g.regs = append(g.regs, regRec{s, req, proc})
+		g.callees[s] = true
+		o := Dict(KV{"invoke", Str(policy)})
+		want := (i == 0) == first // either the founder asks, or the ones that join later
+		if want || g.chance(0.2) {
+			o.D = append(o.D, KV{"forward_timeout", Bool(true)})
+		}
+		if want != g.chance(0.3) {
+			o.D = append(o.D, KV{"disclose_caller", Bool(true)})
+		}
+		g.msg(s, &Msg{Kind: "reg", Req: req, Opts: o, URI: proc})
+	}
+	caller := g.alive[0]
+	n := len(members) + 1 + g.r.IntN(2)
+	for i := 0; i < n; i++ {
+		req := g.nextReq(caller)
+		g.calls = append(g.calls, callRec{caller, req})
+		o := Dict(KV{"timeout", Int('l', 1000)})
+		if g.chance(0.4) {
+			o.D = append(o.D, KV{"disclose_me", Bool(true)})
+		}
+		g.msg(caller, &Msg{Kind: "call", Req: req, Opts: o, URI: proc, Args: List(Int('l', int64(i))), Kw: Dict()})
+	}
+	g.sc.Ops = append(g.sc.Ops, Op{Kind: "tick", Ms: 999}, Op{Kind: "tick", Ms: 1}, Op{Kind: "tick", Ms: 2000})
+	g.tag("shared-members-different-options")
+}
+
 // tplDiscloseMixed: several non-local subscribers with different
 // publisher_identification on ONE subscription, a publisher asking for
 // disclosure (details must depend on the recipient only).
@@ -1111,6 +1178,9 @@ func Generate(profile string, seed uint64, idx int, maxOps, maxSess int) *Scenar
 		}
 		if (base == "rpc" || base == "mixed") && g.chance(0.015) {
 			g.tplDuplicateAnswers()
+		}
+		if (base == "rpc" || base == "mixed") && g.chance(0.02) {
+			g.tplSharedOptions()
 		}
 		if realms > 1 && g.chance(0.01) {
 			// AddRealm with the URI of a live realm: must be refused without effect
